@@ -54,6 +54,9 @@ SuccOf(e) ==
                                           [] OTHER -> total + e.off>> :
                                    p \in {q \in P : e.whence = "current" => q # A!Unknown}}}
             \cup (IF e.whence = "current" /\ A!Unknown \in P THEN {A!Unknown} ELSE {})
+      \* a transient fault of the SOURCE injected by the driver: the call reports it; where the reader stands afterwards is not
+      \* specified, but the next successful absolute seek must land exactly where it says
+      [] "ret" \in DOMAIN e /\ e.ret = "ioerr" -> {A!Unknown}
       [] e.ev = "tell" -> Lift(LAMBDA p : A!TellSucc(p, e.p))
       [] e.ev = "skip" -> P     \* the driver declined an operation (API contract): a stuttering step
       [] OTHER -> {}        \* err / garbled / panic / timeout: no behaviour
